@@ -622,14 +622,16 @@ def main():
                     continue
                 if op.endswith("+") and i % 3:
                     continue
-                line = f"{op} {name} {tk}"
-                casesA.append(line)
-                if op in ("rt", "rt+"):
-                    expect[line] = f"ok {ntk} eof=1"
-                elif op in ("srt", "srt+", "crt", "zrt", "crt+", "zrt+", "zsv"):
-                    expect[line] = f"ok {ntk}"
-                else:
-                    expect[line] = arch
+                # json inside: the same line once more under a process-wide grouping locale (`~`), same expectation
+                for sfx in (("", "~") if (name == "j" or name.endswith(".j")) and op in ("rt", "save", "srt", "crt", "zrt") else ("",)):
+                    line = f"{op}{sfx} {name} {tk}"
+                    casesA.append(line)
+                    if op in ("rt", "rt+"):
+                        expect[line] = f"ok {ntk} eof=1"
+                    elif op in ("srt", "srt+", "crt", "zrt", "crt+", "zrt+", "zsv"):
+                        expect[line] = f"ok {ntk}"
+                    else:
+                        expect[line] = arch
     # payloads around 2^16 (a length field narrower than it should be shows here) -- few, they are long lines
     for name, n in (("s", 65535), ("s", 65536), ("v1", 65537), ("v4", 70000), ("B.s", 66000), ("L.s", 65536)) + \
             ((("s", 1 << 20), ("v8", (1 << 20) + 8), ("M.s.v4", 300000)) if thorough else ()):
@@ -758,7 +760,7 @@ def main():
     for cs, om in zip(cases, out_m):
         w = cs.split(" ", 2)
         dist[w[0]] = dist.get(w[0], 0) + 1
-        w[0] = w[0].rstrip("+")
+        w[0] = w[0].rstrip("~").rstrip("+")
         kd = "err" if "err " in om else ("ok" if om.startswith("ok") else "bytes")
         if w[0] in ("load", "sload", "load2", "ops"):
             kk = om.split(" @")[0] if w[0] != "ops" else ("err " + om.split("err ")[1].split()[0] if "err " in om else "ok")
@@ -781,7 +783,7 @@ def main():
         if k in crash_idx or o.startswith("<"):
             continue
         w = cs.split()
-        op = w[0].rstrip("+")
+        op = w[0].rstrip("~").rstrip("+")
         if op in ("rt", "srt", "crt", "zrt", "zsv", "save", "ssave", "cmp", "zow0", "zow1", "zow2", "cpo"):
             if cs in expect and o != expect[cs]:
                 bad.append((k, "round trip / serialization differs from the value (python oracle)"))
@@ -823,7 +825,7 @@ def main():
         for (k, l), o in zip(jl, jout + ["<none>"] * (len(jl) - len(jout))):
             if o != "1":
                 bad.append((k, "Spec.loadOutputOk false on the implementation's result (cursor outside, ill-formed value, or consumed bytes are not the value's serialization)"))
-    c.extra_cov["judged_impl_outputs"] = len(jl) + sum(1 for cs in cases if cs.split(" ", 1)[0].rstrip("+") in ("rt", "srt", "crt", "zrt", "zsv", "save", "ssave", "cmp", "zow0", "zow1", "zow2", "cpo", "ops"))
+    c.extra_cov["judged_impl_outputs"] = len(jl) + sum(1 for cs in cases if cs.split(" ", 1)[0].rstrip("~").rstrip("+") in ("rt", "srt", "crt", "zrt", "zsv", "save", "ssave", "cmp", "zow0", "zow1", "zow2", "cpo", "ops"))
 
     for k, err in crashes:
         summ = [l.strip() for l in err.splitlines() if "SUMMARY" in l or "runtime error" in l or "ERROR: AddressSanitizer" in l]
